@@ -47,6 +47,9 @@ ASSUMPTIONS = [
     "set, set(replace=True), __setitem__, add_group / set_group with dicts or containers, del, int/float/Decimal/enum/str-subclass "
     "values, int or str tags) stores that tree is C18's subject - here it is covered by correspondence/oracle only (5 recipes on a "
     "sample of every run, signature C15-verdict-depends-on-construction:<recipe>)",
+    "top-level order: the model and `Allowed` depend on the top-level nodes through membership only, so every re-ordering of the "
+    "top-level tags is a correspondence case (signature C15-verdict-depends-on-top-level-order:<order>); order is significant only "
+    "inside repeating-group items",
     "message size is unbounded in the theorems; the correspondence includes groups of 300 (thorough 1500) items and the deepest "
     "message type with every group multiplied at every level; two FIXSchema instances over the two dictionaries are alive and "
     "used alternately in one pass (signature C15-verdict-depends-on-other-instance)",
@@ -831,6 +834,7 @@ class Fresh:
         with warnings.catch_warnings():
             warnings.simplefilter("ignore")
             self.lib = FIXSchema(ld.path)
+        self.hdr, self.trl, self.ref, self.name, self.path = ld.hdr, ld.trl, ld.ref, ld.name, ld.path
 
 
 def run_sequence(ld, seq):
@@ -876,7 +880,7 @@ def construction_runs(ctx):
     cases = build_cases(ctx)
     rng = random.Random(f"C15-construction/{ctx.seed}")
     idxs = [i for i, c in enumerate(cases) if not c["cls"].startswith("large-")]
-    sample = rng.sample(idxs, min(len(idxs), ctx.n(700, 7000)))
+    sample = rng.sample(idxs, min(len(idxs), ctx.n(500, 7000)))
     out = []
     for i in sample:
         c = cases[i]
@@ -903,6 +907,87 @@ def interleaved_run(ctx):
             i = picks[dn][j]
             out.append((i, impl_outcome(fresh[dn], cases[i]["msgtype"], cases[i]["nodes"])))
     ctx._c15_inter = out
+    return out
+
+
+TOP_ORDERS = ["body-then-header", "8-last", "10-first", "shuffled", "8-del-reset"]
+
+
+def top_order_variant(ld, nodes, name):
+    """the same top-level content in another insertion order (deterministic in (nodes, name)); None if not applicable"""
+    ht = ld.hdr | ld.trl
+    tags = [n[1] for n in nodes]
+    if name == "body-then-header":
+        out = [n for n in nodes if n[1] not in ht] + [n for n in nodes if n[1] in ht]
+    elif name in ("8-last", "8-del-reset"):
+        if "8" not in tags:
+            return None
+        out = [n for n in nodes if n[1] != "8"] + [n for n in nodes if n[1] == "8"]
+    elif name == "10-first":
+        if "10" in tags:
+            out = [n for n in nodes if n[1] == "10"] + [n for n in nodes if n[1] != "10"]
+        elif "8" in tags and len(nodes) > 1:
+            rest = [n for n in nodes if n[1] != "8"]
+            out = rest[:1] + [n for n in nodes if n[1] == "8"] + rest[1:]
+        else:
+            return None
+    else:
+        out = list(nodes)
+        random.Random("C15-top/" + json.dumps(nodes)).shuffle(out)
+    return out if out != nodes else None
+
+
+def impl_outcome_order(ld, msgtype, nodes, name):
+    """outcome for the top-level order variant; '8-del-reset' goes through the API: del m[8]; m.set(8, v)"""
+    from asyncfix.errors import FIXMessageError
+
+    if name != "8-del-reset":
+        return impl_outcome(ld, msgtype, top_order_variant(ld, nodes, name))
+    m = build_fix(msgtype, nodes)
+    v = m.tags.get("8")
+    if not isinstance(v, str):
+        return impl_outcome(ld, msgtype, top_order_variant(ld, nodes, name))
+    del m["8"]
+    m.set(8, v)
+    try:
+        with warnings.catch_warnings():
+            warnings.simplefilter("ignore")
+            r = ld.lib.validate(m)
+        return "ok" if r is True else f"ret:{r!r}"
+    except FIXMessageError:
+        return "raised msgError"
+    except Exception as e:  # noqa
+        return "exc:" + type(e).__name__
+
+
+def top_order_runs(ctx):
+    """the verdict is a function of the CONTENT at top level (order matters only inside group items):
+    valid instances and every fault class re-validated with header / trailer tags after or between the body
+    tags, 8 not first, 10 not last -> list of (case index, order name, outcome)"""
+    if getattr(ctx, "_c15_top", None) is not None:
+        return ctx._c15_top
+    cases = build_cases(ctx)
+    rng = random.Random(f"C15-toporder/{ctx.seed}")
+    small = [i for i, c in enumerate(cases) if not c["cls"].startswith("large-") and len(c["nodes"]) >= 2]
+    with_hdr = [i for i in small if any(n[1] == "8" for n in cases[i]["nodes"])]
+    others = [i for i in small if i not in set(with_hdr)]
+    # every class that carries a header at least a few times, then a random remainder
+    by_cls = {}
+    for i in with_hdr:
+        by_cls.setdefault(cases[i]["cls"], []).append(i)
+    sample = []
+    for cls, idx in sorted(by_cls.items()):
+        sample += rng.sample(idx, min(len(idx), ctx.n(25, 250)))
+    sample += rng.sample(others, min(len(others), ctx.n(300, 3000)))
+    out = []
+    for i in sample:
+        c = cases[i]
+        ld = load(c["dict"])
+        for name in TOP_ORDERS:
+            if top_order_variant(ld, c["nodes"], name) is None:
+                continue
+            out.append((i, name, impl_outcome_order(ld, c["msgtype"], c["nodes"], name)))
+    ctx._c15_top = out
     return out
 
 
@@ -1290,6 +1375,13 @@ def correspondence(ctx):
         if i in model_out and got != model_out[i]:
             dis.append({"input": {"recipe": r, "case": cases[i]}, "model": model_out[i], "impl": got,
                         "what": "outcome for the same message built through another sequence of container operations"})
+    hstats["top_order_validations"] = 0
+    for i, name, got in top_order_runs(ctx):
+        hstats["top_order_validations"] += 1
+        # the model (and `Allowed`) is insensitive to the order of top-level nodes: membership only
+        if i in model_out and got != model_out[i]:
+            dis.append({"input": {"top_order": name, "case": cases[i]}, "model": model_out[i], "impl": got,
+                        "what": "outcome for the same top-level content in another insertion order"})
     hstats["interleaved_validations"] = 0
     for i, got in interleaved_run(ctx):
         hstats["interleaved_validations"] += 1
@@ -1304,7 +1396,7 @@ def correspondence(ctx):
         depths[c["depth"]] = depths.get(c["depth"], 0) + 1
     ctx._c15_wf = wf
     return {
-        "evaluations": len(cases) + hstats["validations"] + hstats["construction_validations"] + hstats["interleaved_validations"] + pstats["resolver_lines"] + pstats["perm_validations"] + pstats["permutations"],
+        "evaluations": len(cases) + hstats["validations"] + hstats["construction_validations"] + hstats["top_order_validations"] + hstats["interleaved_validations"] + pstats["resolver_lines"] + pstats["perm_validations"] + pstats["permutations"],
         "distinct_nontrivial": len(seen),
         "rule": "validation cases = corpus + per message type of FIX44.xml (93) and TT-FIX44.xml (40): randomly populated valid "
         "instances (dictionary-directed, nesting depth forced 0..max, every 3rd shuffled at message level) + single-fault "
@@ -1321,7 +1413,9 @@ def correspondence(ctx):
         "rare types), plus near-misses of enumerations. Construction dimension: a sample of cases rebuilt by 5 other recipes (constructor "
         "dict, __setitem__, set(replace=True) over a placeholder, del + set / add_group(index=0), str subclass; int / float / Decimal / "
         "enum instead of str, int vs str tags, dict vs container items). Size: 300 / 1500 items in one group, all groups multiplied at "
-        "every level of the deepest message.",
+        "every level of the deepest message. Top-level order: valid instances and every fault class (all header / trailer classes "
+        "incl. 'required header field missing') re-validated with header and trailer tags after the body, 8 last, 10 first, fully "
+        "shuffled, and 8 deleted and set again through the API.",
         "samples": [{"case": cases[i], "impl": impl[i]} for i in _sample_idx(len(cases))],
         "exhaustive": False,
         "branches": {"outcome_by_class": dict(sorted(branches.items())), "schemaWF": wf, "parser": pstats, "history": hstats},
@@ -1519,6 +1613,22 @@ def oracle(ctx, disagreements, broken):
                              "expected": impl_outcome(load(small["dict"]), small["msgtype"], small["nodes"]) + " (as when built with set(tag, str))",
                              "observed": {"outcome": impl_outcome(load(small["dict"]), small["msgtype"], small["nodes"], r),
                                           "container_holds": held}})
+    seen_t = set()
+    for i, name, got in top_order_runs(ctx):
+        n += 1
+        if got != main_out[i] and (name, got, main_out[i]) not in seen_t:
+            seen_t.add((name, got, main_out[i]))
+            small = min((allc[k] for k, n2, g2 in top_order_runs(ctx) if n2 == name and g2 == got and main_out[k] == main_out[i]),
+                        key=lambda x: len(json.dumps(x["nodes"])))
+            ld = load(small["dict"])
+            failures.append({"signature": f"C15-verdict-depends-on-top-level-order:{name}",
+                             "what": "the same top-level tags and values, inserted in another order, get another verdict "
+                                     "(order is significant only inside repeating-group items)",
+                             "input": {"dict": small["dict"], "msgtype": small["msgtype"], "nodes": small["nodes"], "top_order": name,
+                                       "reordered": top_order_variant(ld, small["nodes"], name)},
+                             "expected": impl_outcome(ld, small["msgtype"], small["nodes"]) + " (as in the original order; allowed() says "
+                                         + str(allowed(ld, small["msgtype"], small["nodes"])) + ")",
+                             "observed": impl_outcome_order(ld, small["msgtype"], small["nodes"], name)})
     for i, got in interleaved_run(ctx):
         n += 1
         if got != main_out[i] and i not in seen_hist:
@@ -1585,6 +1695,11 @@ def replay(ctx, rp):
         print("replay:", inp["dict"], inp["msgtype"], json.dumps(inp["nodes"])[:200], "alone ->", alone,
               "| after", len(inp["history"]), "earlier validation(s), first:", json.dumps(inp["history"][0])[:200], "->", after)
         return alone != after
+    if "top_order" in inp:
+        a = impl_outcome(ld, inp["msgtype"], inp["nodes"])
+        b = impl_outcome_order(Fresh(ld), inp["msgtype"], inp["nodes"], inp["top_order"])
+        print("replay:", inp["dict"], inp["msgtype"], json.dumps(inp["nodes"])[:200], "->", a, "|", inp["top_order"], "->", b)
+        return a != b
     if "recipe" in inp:
         a = impl_outcome(ld, inp["msgtype"], inp["nodes"])
         b = impl_outcome(Fresh(ld), inp["msgtype"], inp["nodes"], inp["recipe"])
